@@ -489,18 +489,36 @@ func (c *Client) PublishPredefined(topicID uint16, payload []byte, qos uint8, re
 
 // Ping sends a PING packet to the MQTT-SN gateway.
 func (c *Client) Ping() error {
-	transaction := newPingTransaction(c)
-	ping := pkts1.NewPingreq(nil)
-	c.transactions.StoreByType(pkts.PINGREQ, transaction)
-	transaction.Proceed(nil, ping)
-	if err := c.send(ping); err != nil {
-		transaction.Fail(err)
+	cancelled, err := c.ping()
+	if cancelled {
+		return c.group.Wait()
+	}
+	return err
+}
+
+// ping implements Ping. It does not wait for the client's goroutines when the
+// client is cancelled, so it can be used by one of them (keepaliveLoop).
+func (c *Client) ping() (cancelled bool, err error) {
+	var transaction transactions.Transaction
+	// There is only one slot for a PINGREQ transaction. If a ping is already
+	// in progress (keep-alive vs. user's Ping), share it.
+	if pending, ok := c.transactions.GetByType(pkts.PINGREQ); ok {
+		transaction = pending
+	} else {
+		pingTransaction := newPingTransaction(c)
+		ping := pkts1.NewPingreq(nil)
+		c.transactions.StoreByType(pkts.PINGREQ, pingTransaction)
+		pingTransaction.Proceed(nil, ping)
+		if err := c.send(ping); err != nil {
+			pingTransaction.Fail(err)
+		}
+		transaction = pingTransaction
 	}
 	select {
 	case <-transaction.Done():
-		return transaction.Err()
+		return false, transaction.Err()
 	case <-c.groupCtx.Done():
-		return c.group.Wait()
+		return true, nil
 	}
 }
 
